@@ -54,6 +54,12 @@ pub fn quantity_json(q: &Quantity) -> J {
     })
 }
 
+thread_local! {
+    /// when set, list values are reported with their sharing structure (only C18 asks for it:
+    /// addresses differ between otherwise identical sessions)
+    pub static SHARING: std::cell::Cell<bool> = const { std::cell::Cell::new(false) };
+}
+
 pub fn value_json(v: &Value) -> J {
     match v {
         Value::Quantity(q) => quantity_json(q),
@@ -82,6 +88,15 @@ pub fn value_json(v: &Value) -> J {
                 .map(|(k, v)| json!([k.as_str(), value_json(v)])).collect::<Vec<_>>(),
             "nvalues": values.len(),
             "nfields": info.fields.len(),
+        }),
+        Value::List(l) if SHARING.with(|s| s.get()) => json!({
+            "t": "list",
+            "items": l.iter().map(value_json).collect::<Vec<_>>(),
+            // sharing structure (hook H6): which allocation, through which window, how many owners
+            "alloc": l.verif_alloc_id(),
+            "view": l.verif_view().map(|(a, b)| vec![a, b]),
+            "alloc_len": l.verif_alloc_len(),
+            "strong": l.verif_strong_count(),
         }),
         Value::List(l) => json!({
             "t": "list",
